@@ -308,24 +308,24 @@ func (k *checker) legality(tag string, mfs []*dto.MetricFamily) {
 	legacy := k.p.c.Legacy
 	for _, mf := range mfs {
 		if !legalMetricName(mf.GetName(), legacy) {
-			k.bad("illegal_metric_name", "%s: family name %q is not legal (legacy scheme %v)", tag, mf.GetName(), legacy)
+			k.bad("illegal_metric_name", "%s: family name %q is not legal (legacy scheme %v)", tag, clip(mf.GetName()), legacy)
 		}
 		first := ""
 		for i, m := range mf.GetMetric() {
 			dup := map[string]bool{}
 			for _, lp := range m.GetLabel() {
 				if !legalLabelName(lp.GetName(), legacy) {
-					k.bad("illegal_label_name", "%s: family %q has label name %q (legacy scheme %v)", tag, mf.GetName(), lp.GetName(), legacy)
+					k.bad("illegal_label_name", "%s: family %q has label name %q (legacy scheme %v)", tag, clip(mf.GetName()), lp.GetName(), legacy)
 				}
 				if dup[lp.GetName()] {
-					k.bad("duplicate_label_name", "%s: family %q repeats label %q on one series", tag, mf.GetName(), lp.GetName())
+					k.bad("duplicate_label_name", "%s: family %q repeats label %q on one series", tag, clip(mf.GetName()), lp.GetName())
 				}
 				dup[lp.GetName()] = true
 			}
 			if ln := labelNames(m); i == 0 {
 				first = ln
 			} else if ln != first && k.p.strong() && mf.GetName() != "otel_scope_info" {
-				k.bad("label_names_differ", "%s: family %q has series with label names [%s] and [%s]", tag, mf.GetName(), first, ln)
+				k.bad("label_names_differ", "%s: family %q has series with label names [%s] and [%s]", tag, clip(mf.GetName()), first, ln)
 			}
 		}
 	}
@@ -376,7 +376,7 @@ func (k *checker) exact(tag string, mfs []*dto.MetricFamily, gerr error, rm *met
 	fams := map[string]*dto.MetricFamily{}
 	for _, mf := range mfs {
 		if _, dup := fams[mf.GetName()]; dup {
-			k.bad("duplicate_family", "%s: family %q returned twice", tag, mf.GetName())
+			k.bad("duplicate_family", "%s: family %q returned twice", tag, clip(mf.GetName()))
 		}
 		fams[mf.GetName()] = mf
 	}
@@ -455,7 +455,7 @@ func (k *checker) exact(tag string, mfs []*dto.MetricFamily, gerr error, rm *met
 		for _, f := range mfs {
 			if ref.matches(f.GetName()) {
 				if mf != nil {
-					k.bad("two_families", "%s: instrument %d %q maps to families %q and %q", tag, i, in.Name, mf.GetName(), f.GetName())
+					k.bad("two_families", "%s: instrument %d %q maps to families %q and %q", tag, i, in.Name, clip(mf.GetName()), f.GetName())
 				}
 				mf = f
 				used[f.GetName()] = true
@@ -463,7 +463,7 @@ func (k *checker) exact(tag string, mfs []*dto.MetricFamily, gerr error, rm *met
 		}
 		if len(pts) == 0 {
 			if mf != nil {
-				k.bad("phantom_family", "%s: instrument %d %q has no data points in the SDK but family %q is exposed", tag, i, in.Name, mf.GetName())
+				k.bad("phantom_family", "%s: instrument %d %q has no data points in the SDK but family %q is exposed", tag, i, in.Name, clip(mf.GetName()))
 			}
 			continue
 		}
@@ -479,19 +479,19 @@ func (k *checker) exact(tag string, mfs []*dto.MetricFamily, gerr error, rm *met
 			wantType = dto.MetricType_HISTOGRAM
 		}
 		if mf.GetType() != wantType {
-			k.bad("family_type", "%s: family %q of %s %q has type %v, want %v", tag, mf.GetName(), in.Kind, in.Name, mf.GetType(), wantType)
+			k.bad("family_type", "%s: family %q of %s %q has type %v, want %v", tag, clip(mf.GetName()), in.Kind, in.Name, mf.GetType(), wantType)
 			continue
 		}
 		series := map[string]*dto.Metric{}
 		for _, m := range mf.GetMetric() {
 			lk := labelKey(labelMap(m))
 			if series[lk] != nil {
-				k.bad("duplicate_series", "%s: family %q has two series with labels %v", tag, mf.GetName(), labelMap(m))
+				k.bad("duplicate_series", "%s: family %q has two series with labels %v", tag, clip(mf.GetName()), labelMap(m))
 			}
 			series[lk] = m
 		}
 		if len(mf.GetMetric()) != len(pts) {
-			k.bad("series_count", "%s: family %q has %d series, the SDK has %d data points", tag, mf.GetName(), len(mf.GetMetric()), len(pts))
+			k.bad("series_count", "%s: family %q has %d series, the SDK has %d data points", tag, clip(mf.GetName()), len(mf.GetMetric()), len(pts))
 		}
 		for _, pt := range pts {
 			want := refLabels(pt.attrs.ToSlice(), c.Legacy)
@@ -504,39 +504,39 @@ func (k *checker) exact(tag string, mfs []*dto.MetricFamily, gerr error, rm *met
 			}
 			m := series[labelKey(want)]
 			if m == nil {
-				k.bad(k.labelKind(want, mf), "%s: family %q: no series with labels %v for data point %s; series: %v", tag, mf.GetName(), want, pt.attrs.Encoded(attribute.DefaultEncoder()), seriesLabels(mf))
+				k.bad(k.labelKind(want, mf), "%s: family %q: no series with labels %v for data point %s; series: %v", tag, clip(mf.GetName()), want, pt.attrs.Encoded(attribute.DefaultEncoder()), seriesLabels(mf))
 				continue
 			}
 			switch wantType {
 			case dto.MetricType_COUNTER:
 				if got := m.GetCounter().GetValue(); got != pt.value {
-					k.bad("counter_value", "%s: %q%v = %v, the SDK aggregated %v", tag, mf.GetName(), want, got, pt.value)
+					k.bad("counter_value", "%s: %q%v = %v, the SDK aggregated %v", tag, clip(mf.GetName()), want, got, pt.value)
 				}
 			case dto.MetricType_GAUGE:
 				if o.skipSyncGauge && isGauge(in.Kind) && !isObservable(in.Kind) {
 					continue
 				}
 				if got := m.GetGauge().GetValue(); got != pt.value {
-					k.bad("gauge_value", "%s: %q%v = %v, the SDK aggregated %v", tag, mf.GetName(), want, got, pt.value)
+					k.bad("gauge_value", "%s: %q%v = %v, the SDK aggregated %v", tag, clip(mf.GetName()), want, got, pt.value)
 				}
 			case dto.MetricType_HISTOGRAM:
 				h := m.GetHistogram()
 				k.histShape(tag, mf.GetName(), h)
 				if h.GetSampleCount() != pt.count {
-					k.bad("histogram_count", "%s: %q%v _count = %d, the SDK aggregated %d", tag, mf.GetName(), want, h.GetSampleCount(), pt.count)
+					k.bad("histogram_count", "%s: %q%v _count = %d, the SDK aggregated %d", tag, clip(mf.GetName()), want, h.GetSampleCount(), pt.count)
 				}
 				if h.GetSampleSum() != pt.value {
-					k.bad("histogram_sum", "%s: %q%v _sum = %v, the SDK aggregated %v", tag, mf.GetName(), want, h.GetSampleSum(), pt.value)
+					k.bad("histogram_sum", "%s: %q%v _sum = %v, the SDK aggregated %v", tag, clip(mf.GetName()), want, h.GetSampleSum(), pt.value)
 				}
 				if len(h.GetBucket()) != len(pt.bounds) {
-					k.bad("histogram_buckets", "%s: %q%v has %d finite buckets, the SDK has %d bounds", tag, mf.GetName(), want, len(h.GetBucket()), len(pt.bounds))
+					k.bad("histogram_buckets", "%s: %q%v has %d finite buckets, the SDK has %d bounds", tag, clip(mf.GetName()), want, len(h.GetBucket()), len(pt.bounds))
 					continue
 				}
 				cum := uint64(0)
 				for bi, b := range h.GetBucket() {
 					cum += pt.buckets[bi]
 					if b.GetUpperBound() != pt.bounds[bi] || b.GetCumulativeCount() != cum {
-						k.bad("histogram_bucket", "%s: %q%v bucket %d is le=%v count=%d, want le=%v cumulative count=%d (SDK per-bucket counts %v)", tag, mf.GetName(), want, bi, b.GetUpperBound(), b.GetCumulativeCount(), pt.bounds[bi], cum, pt.buckets)
+						k.bad("histogram_bucket", "%s: %q%v bucket %d is le=%v count=%d, want le=%v cumulative count=%d (SDK per-bucket counts %v)", tag, clip(mf.GetName()), want, bi, b.GetUpperBound(), b.GetCumulativeCount(), pt.bounds[bi], cum, pt.buckets)
 						break
 					}
 				}
@@ -545,7 +545,7 @@ func (k *checker) exact(tag string, mfs []*dto.MetricFamily, gerr error, rm *met
 	}
 	for _, mf := range mfs {
 		if !used[mf.GetName()] {
-			k.bad("unexpected_family", "%s: family %q belongs to no instrument of the case", tag, mf.GetName())
+			k.bad("unexpected_family", "%s: family %q belongs to no instrument of the case", tag, clip(mf.GetName()))
 		}
 	}
 }
